@@ -163,7 +163,7 @@ fn isolated<F: FnOnce() -> String>(f: F, secs: u32) -> String {
 }
 
 /// threads share one archive handle and a few file handles; each also works on handles of its own
-fn stress(path: &str, names: &[String], contents: &[Vec<u8>], threads: usize, iters: usize, seed: u64) -> String {
+fn stress(path: &str, other: Option<&str>, names: &[String], contents: &[Vec<u8>], threads: usize, iters: usize, seed: u64) -> String {
     let cp = CString::new(path).unwrap();
     let mut hd: HANDLE = std::ptr::null_mut();
     if !unsafe { SFileOpenArchive(cp.as_ptr(), 0, 0, &mut hd) } { return "OPEN-FAIL".to_string(); }
@@ -181,6 +181,7 @@ fn stress(path: &str, names: &[String], contents: &[Vec<u8>], threads: usize, it
         let contents = contents.to_vec();
         let shared = shared.clone();
         let bad = bad.clone();
+        let other = other.map(|o| CString::new(o).unwrap());
         hs.push(std::thread::spawn(move || {
             let mut x = seed.wrapping_mul(6364136223846793005).wrapping_add((t as u64).wrapping_mul(1442695040888963407).wrapping_add(1));
             let mut rnd = move |m: u64| { x ^= x << 13; x ^= x >> 7; x ^= x << 17; x % m.max(1) };
@@ -189,7 +190,7 @@ fn stress(path: &str, names: &[String], contents: &[Vec<u8>], threads: usize, it
                 let k = rnd(names.len() as u64) as usize;
                 let cn = CString::new(names[k].as_str()).unwrap();
                 unsafe {
-                    match rnd(8) {
+                    match rnd(if other.is_some() { 11 } else { 8 }) {
                         0 | 1 => {
                             // own handle: open, read in random chunks, compare, close
                             let mut fh: HANDLE = std::ptr::null_mut();
@@ -229,7 +230,18 @@ fn stress(path: &str, names: &[String], contents: &[Vec<u8>], threads: usize, it
                             }
                         }
                         6 => { let mut g = Guarded::new(400); SFileGetArchiveName(ah as HANDLE, g.ptr() as *mut c_char, 400); if !g.intact() { bad.lock().unwrap().push("guard name".into()); } }
-                        _ => { SFileVerifyFile(ah as HANDLE, cn.as_ptr(), 0); }
+                        7 => { SFileVerifyFile(ah as HANDLE, cn.as_ptr(), 0); }
+                        _ => {
+                            // a second archive opened, searched and closed while the other threads enumerate the first one
+                            let o = other.as_ref().unwrap();
+                            let mut h2: HANDLE = std::ptr::null_mut();
+                            if SFileOpenArchive(o.as_ptr(), 0, 0, &mut h2) {
+                                let mut fd: SFILE_FIND_DATA = std::mem::zeroed();
+                                let q = SFileFindFirstFile(h2, std::ptr::null(), &mut fd, std::ptr::null());
+                                if !q.is_null() && rnd(2) == 0 { SFileFindClose(q); }
+                                if !SFileCloseArchive(h2) { bad.lock().unwrap().push("close of the second archive failed".into()); }
+                            } else { bad.lock().unwrap().push("open of the second archive failed".into()); }
+                        }
                     }
                 }
                 ops += 1;
@@ -259,7 +271,7 @@ fn main() {
             let calls: Vec<&str> = t[2].split(',').collect();
             isolated(|| run_history(&paths, &calls), 30)
         }
-        // stress <path> <threads> <iters> <seed>
+        // stress <path> <threads> <iters> <seed> [<second archive>]
         "stress" => {
             let path = t[1].to_string();
             let (th, it, sd) = (num(t[2]) as usize, num(t[3]) as usize, num(t[4]));
@@ -267,7 +279,8 @@ fn main() {
             let names: Vec<String> = a.list().unwrap().iter().map(|e| e.name.clone()).filter(|n| !n.starts_with('(')).collect();
             let contents: Vec<Vec<u8>> = names.iter().map(|n| a.read_file(n).unwrap()).collect();
             drop(a);
-            isolated(move || stress(&path, &names, &contents, th, it, sd), 60)
+            let other = t.get(5).map(|s| s.to_string());
+            isolated(move || stress(&path, other.as_deref(), &names, &contents, th, it, sd), 60)
         }
         _ => "ERR unknown".to_string(),
     });
